@@ -1,8 +1,9 @@
 (* C17 — declared feature types are enforced exactly as documented.  Property theorems only. *)
-From Coq Require Import List Bool.
+From Coq Require Import List Bool String.
 Import ListNotations.
 Require Import MV.Spec.Types MV.Model.Validate MV.Gen.TypeTables MV.Proofs.TypesP.
 Require Import MV.Model.ValidateChain MV.Proofs.ValidateChainP.
+Require Import MV.Model.ValidateSet MV.Proofs.ValidateSetP.
 
 (* The code's two compatibility relations and its Arrow->DataType map, regenerated from /repo on this run by
    evaluating them on all 121 pairs / 24 Arrow types, equal the documented tables. *)
@@ -130,3 +131,93 @@ Example C17_chain_depth3_raises :
       {| l_declared := Some STRING; l_actual := Some STRING; l_own := SAbsent |};
       {| l_declared := Some INT32; l_actual := Some INT64; l_own := SAbsent |} ] = COk.
 Proof. vm_compute; split; reflexivity. Qed.
+
+(* ---- WHICH features of a run are type-checked (Model/ValidateSet.v): the features the user wrote carry their declaration, the
+        features the engine adds by itself (index / join-key features for Links, filter features for a GlobalFilter) carry none ---- *)
+
+(* the index features the engine creates (create_index_feature) never carry a declared type: for every group, every set of links,
+   every feature they are created for *)
+Theorem C17_index_features_undeclared : forall gi g links owner e,
+  In e (add_index_features create_index_feature gi g links owner) -> e_type e = None.
+Proof. exact (index_features_untyped _ create_index_feature_untyped). Qed.
+Print Assumptions C17_index_features_undeclared.
+
+(* the set of TYPED features of the collection = exactly the features the user wrote a declaration for (own declaration or the
+   group's return_data_type_rule), each with exactly that declaration - for any number of groups, links, indexes and filters given
+   by column name *)
+Theorem C17_checked_exactly_the_declared : forall groups links filters us coll,
+  undeclared_filters filters ->
+  collect groups links filters us = Some coll ->
+  forall e d, (In e coll /\ e_type e = Some d) <->
+              exists u, In u us /\ declared_type groups u = Some (Some d) /\ e = user_entry u (Some d).
+Proof. exact (collect_typed_exact _ create_index_feature_untyped). Qed.
+Print Assumptions C17_checked_exactly_the_declared.
+
+(* without the restriction on filters: the only other typed features are filter features on which the user declared the type *)
+Theorem C17_typed_features_are_user_declared : forall groups links filters us coll e d,
+  collect groups links filters us = Some coll -> In e coll -> e_type e = Some d ->
+  (exists u, In u us /\ declared_type groups u = Some (Some d) /\ e = user_entry u (Some d)) \/
+  (exists f u g, In f filters /\ In u us /\ nth_error groups (u_group u) = Some g /\ filter_matches g f = true /\
+                 f_decl f = Some d /\ e_group e = u_group u /\ e_name e = f_name f).
+Proof. exact (collect_typed_sound _ create_index_feature_untyped). Qed.
+Print Assumptions C17_typed_features_are_user_declared.
+
+Theorem C17_user_features_all_present : forall groups links filters us coll u,
+  collect groups links filters us = Some coll -> In u us ->
+  exists t, declared_type groups u = Some t /\ In (user_entry u t) coll.
+Proof. exact (collect_user_complete create_index_feature). Qed.
+Print Assumptions C17_user_features_all_present.
+
+(* the run is rejected at prepare time iff a user declaration conflicts with the group's rule; otherwise it fails with a mismatch
+   EXACTLY when a feature the user declared a type for produced an incompatible column under the table its strict option selects *)
+Theorem C17_run_set_decision : forall strict lenient groups links filters us cols,
+  undeclared_filters filters ->
+  (run_set strict lenient groups links filters us cols = SReject <-> exists u, In u us /\ declared_type groups u = None) /\
+  (run_set strict lenient groups links filters us cols = SMismatch <->
+     (forall u, In u us -> declared_type groups u <> None) /\ exists u, In u us /\ user_incompatible strict lenient groups cols u).
+Proof. exact (run_set_decision _ create_index_feature_untyped). Qed.
+Print Assumptions C17_run_set_decision.
+
+(* Links, index columns and filters by column name never change the verdict of a run *)
+Theorem C17_added_features_never_change_the_verdict : forall strict lenient groups links filters us cols,
+  undeclared_filters filters ->
+  run_set strict lenient groups links filters us cols = run_set strict lenient groups None [] us cols.
+Proof. exact run_set_added_irrelevant. Qed.
+Print Assumptions C17_added_features_never_change_the_verdict.
+
+(* what the statements need of the index-feature constructor is only that it leaves the type undeclared ... *)
+Theorem C17_any_undeclared_index_constructor : forall mkidx,
+  (forall gi idx owner, e_type (mkidx gi idx owner) = None) ->
+  forall strict lenient groups links filters us cols, undeclared_filters filters ->
+  (run_set_with mkidx strict lenient groups links filters us cols = SMismatch <->
+     (forall u, In u us -> declared_type groups u <> None) /\ exists u, In u us /\ user_incompatible strict lenient groups cols u).
+Proof. intros mkidx H strict lenient groups links filters us cols Hf. exact (proj2 (run_set_decision mkidx H strict lenient groups links filters us cols Hf)). Qed.
+Print Assumptions C17_any_undeclared_index_constructor.
+
+(* ... and an index feature that takes over the declaration of the feature it is created for breaks it: Users(uid:string, age) and
+   Orders(uid:string, amount) linked on uid, age declared INT32 and amount DOUBLE and produced as such - the run must succeed and
+   the inheriting variant reports a mismatch (on the key nobody declared) *)
+Theorem C17_index_inherit_refuted :
+  run_set_with index_inherit strict_spec lenient_spec wit_groups wit_links [] wit_us wit_cols = SMismatch
+  /\ run_set strict_spec lenient_spec wit_groups wit_links [] wit_us wit_cols = SOk
+  /\ run_set strict_spec lenient_spec wit_groups None [] wit_us wit_cols = SOk.
+Proof. exact index_inherit_refuted_l. Qed.
+Print Assumptions C17_index_inherit_refuted.
+
+(* per-call flag on a request with input features: every user feature is judged strictly (ties Model/ValidateSet.flatten to the
+   chain model's option merge) *)
+Theorem C17_flatten_api_all_strict : forall rs,
+  (forall r, In r rs -> r_own r <> SFalse /\ forall d, In d (r_deps r) -> d_own d <> SFalse) ->
+  exists us, flatten true rs = Some us /\ forall u, In u us -> u_strict u = STrue.
+Proof. exact flatten_api_all_strict. Qed.
+Print Assumptions C17_flatten_api_all_strict.
+
+(* non-vacuity: a declared value feature with a wrong column is still rejected with links present; a declared key is checked *)
+Example C17_set_examples :
+  run_set strict_spec lenient_spec wit_groups wit_links [] wit_us
+          [ [("uid"%string, Some STRING); ("age"%string, Some STRING)]; [("uid"%string, Some STRING); ("amount"%string, Some DOUBLE)] ] = SMismatch
+  /\ run_set strict_spec lenient_spec wit_groups wit_links [ {| f_name := "uid"%string; f_decl := None; f_own := SAbsent |} ]
+          ({| u_group := 0; u_name := "uid"%string; u_decl := Some INT64; u_strict := SAbsent |} :: wit_us) wit_cols = SMismatch
+  /\ run_set strict_spec lenient_spec wit_groups wit_links [ {| f_name := "uid"%string; f_decl := None; f_own := SAbsent |} ]
+          ({| u_group := 0; u_name := "uid"%string; u_decl := Some STRING; u_strict := SAbsent |} :: wit_us) wit_cols = SOk.
+Proof. vm_compute; repeat split. Qed.
